@@ -310,6 +310,14 @@ Section WS.
         let '(w', s', x) := ws_get w s t in
         let '(xs, s'') := ws_run w' s' r in (x :: xs, s'')
     end.
+
+  Fixpoint ws_run_nomemo (w : wstate) (s : St) (ts : list Z) : list (res Q) * St :=
+    match ts with
+    | [] => ([], s)
+    | t :: r =>
+        let '(w', s', x) := ws_get_nomemo w s t in
+        let '(xs, s'') := ws_run_nomemo w' s' r in (x :: xs, s'')
+    end.
 End WS.
 
 (* ------------------------------------------------------------------------- *)
@@ -337,7 +345,7 @@ Inductive nodest : Type :=
 | SOut (s : OutputM.state Q)
 | SStat (d : option Q)
 | SWS (w : wstate)
-| SCb.
+| SCb (ready : bool).  (* harness component: answers once its own connect phase is through *)
 
 (** trace entries: kind 0 = get_data arrives at node [id]; 1 = provider callback of node [id]
     invoked; 2 = get_data arrives at adapter [id] *)
@@ -415,10 +423,11 @@ Fixpoint eval (fuel : nat) (net : list node) (st : nst) (n key : nat) (t : Z) : 
             (* CallbackOutput.get_data 532: prepare() converts into the output's units *)
             (set_node st' n (SWS w'),
              map_res (fun q => Qred (q * (match us with u0 :: _ => u0 | [] => 1 end) / uout)%Q) r)
-      | Some (NCb nk bias ins), Some SCb =>
+      | Some (NCb nk bias ins), Some (SCb ready) =>
           if Nat.ltb (exch_of st n) nk then (st, Err ENoData)
           else
             let st := add_log (1%nat, n, t) st in
+            if negb ready then (st, Err ENoData) else
             let '(st', r) :=
               pull_all (fun s i t' => pull_edge (eval f net) s (nth i ins dummy_edge) t')
                        (length ins) 0 st t in
@@ -468,6 +477,7 @@ Definition nstep (net : list node) (cedges : list (edge * bool)) (st : nst) (o :
   | OValid n =>
       match nth_error (n_nodes st) n with
       | Some (SWS w) => (set_node st n (SWS (mkW (ws_fetched w) true (ws_last w) (ws_out w))), (Ok 0%Q, []))
+      | Some (SCb _) => (set_node st n (SCb true), (Ok 0%Q, []))
       | _ => (st, (Ok 0%Q, []))
       end
   | OPull c t =>
@@ -497,7 +507,7 @@ Definition node_init (n : node) : nodest :=
   | NOut _ keys => SOut (OutputM.init keys)
   | NStat _ _ => SStat None
   | NWS _ _ ins => SWS (ws_init (length ins))
-  | NCb _ _ _ => SCb
+  | NCb _ _ _ => SCb false
   end.
 
 Definition net_init (net : list node) (cedges : list (edge * bool)) : nst :=
